@@ -8,7 +8,7 @@ import LlgoVerif.Spec.DeferSem
     `frame <stmts> <hist>`                        frame layer only: calls made by `Model.unwindView` and by `Spec.unwindView`
                                                   (`hist` = statement indices, comma separated, oldest first; payload = position)
 
-    prog  := fn ('|' fn)*            fn := capR [entryFrame [implicitRun]] ('.' droppedSite)* ';' stmts ';' events
+    prog  := fn ('|' fn)*            fn := capR [entryFrame [implicitRun [noRun]]] ('.' droppedSite)* ';' stmts ';' events
     stmts := '' | stmt (',' stmt)*   stmt := kind '.' clo '.' nargs '.' fn        kind ∈ a c l x
     events:= '' | ev (',' ev)*       ev := d.k(.arg)* | c.g(.arg)* | m.int | p.arg | f | R | t | e | s.up.var.arg | a.up.var.arg | w.up.var
     arg   := l<int> | x | r | p<nat>
@@ -70,9 +70,10 @@ def parseFn (s : String) : Option Fn :=
     | some dropped =>
     (fun (r : Option Fn) => r.map fun f => { f with dropped := dropped }) <|
     match c.toList with
-    | [a] => do pure ⟨← parseList parseStmt ss, ← parseList parseEv evs, ← parseBool (String.singleton a), false, false, []⟩
-    | [a, b] => do pure ⟨← parseList parseStmt ss, ← parseList parseEv evs, ← parseBool (String.singleton a), ← parseBool (String.singleton b), false, []⟩
-    | [a, b, c] => do pure ⟨← parseList parseStmt ss, ← parseList parseEv evs, ← parseBool (String.singleton a), ← parseBool (String.singleton b), ← parseBool (String.singleton c), []⟩
+    | [a] => do pure ⟨← parseList parseStmt ss, ← parseList parseEv evs, ← parseBool (String.singleton a), false, false, [], false⟩
+    | [a, b] => do pure ⟨← parseList parseStmt ss, ← parseList parseEv evs, ← parseBool (String.singleton a), ← parseBool (String.singleton b), false, [], false⟩
+    | [a, b, c] => do pure ⟨← parseList parseStmt ss, ← parseList parseEv evs, ← parseBool (String.singleton a), ← parseBool (String.singleton b), ← parseBool (String.singleton c), [], false⟩
+    | [a, b, c, d] => do pure ⟨← parseList parseStmt ss, ← parseList parseEv evs, ← parseBool (String.singleton a), ← parseBool (String.singleton b), ← parseBool (String.singleton c), [], ← parseBool (String.singleton d)⟩
     | _ => none
   | _ => none
 
@@ -100,6 +101,7 @@ def showFlag : Flag → String
   | .droppedDefer => "droppedDefer"
   | .frameInitSkipped => "frameInitSkipped"
   | .nodesLeft => "nodesLeft"
+  | .frameNeverPopped => "frameNeverPopped"
   | .recoverIndirect => "recoverIndirect"
   | .nestedRecover => "nestedRecover"
 
